@@ -195,6 +195,8 @@ class SimpGen:
                 return Node('ref', V(x), lit(r.randint(0, scope[x][1] - 1)))
         if c < 0.79:
             ls = self.vars_of(scope, lambda t: isinstance(t, tuple))
+            if ls and r.random() < 0.3 and d > 0:
+                return Node('sum', self.comp_R(scope, d - 1))
             if ls:
                 return Node(r.choice(['sum', 'len']), V(r.choice(ls)))
         if c < 0.86:
@@ -314,6 +316,101 @@ class SimpGen:
             return Node('ptuple', ps), Node('tuple', es), ls
         return go(depth)
 
+    def comp_R(self, scope, d, target=None):
+        """A comprehension over a list variable / range with real elements; the target may shadow an outer
+        variable.  -> node (list of reals, length unknown to the caller)"""
+        r = self.r
+        Ls = self.vars_of(scope, lambda t: isinstance(t, tuple))
+        it = V(r.choice(Ls)) if (Ls and r.random() < 0.7) else Node('range', [lit(r.randint(1, 3))])
+        Rs = self.vars_of(scope, lambda t: t == 'R')
+        if target is None:
+            target = r.choice(Rs) if (Rs and r.random() < 0.5) else self.fresh('g')
+        inner = dict(scope)
+        inner[target] = 'R'
+        elt = self.expr_R(inner, d)
+        if r.random() < 0.7:
+            elt = Node('op2', r.choice(['add', 'mul', 'sub']), elt, V(target))
+        self.features.add('comp')
+        return Node('comp', [(PV(target), it)], elt)
+
+    def shadow_comp_stmts(self, scope, frozen):
+        """x = e; s = reduce([.. x .. for x in xs]) op x  -- the comprehension target shadows the variable that is
+        read again later in the same statement (the target is scoped to the comprehension)."""
+        r = self.r
+        out = []
+        Rs = [v for v in self.vars_of(scope, lambda t: t == 'R')]
+        if Rs and r.random() < 0.4:
+            x = r.choice(Rs)                       # an argument / earlier definition is shadowed
+            if x not in frozen and r.random() < 0.6:
+                out.append(Node('assign', PV(x), self.expr_R(scope, 1)))
+        else:
+            x = self.fresh('x')
+            out.append(Node('assign', PV(x), self.expr_R(scope, 1)))
+            scope[x] = 'R'
+        c = self.comp_R(scope, 1, target=x)
+        red = Node(r.choice(['sum', 'sum', 'len']), c)
+        k = r.random()
+        if k < 0.6:
+            e = Node('op2', r.choice(['add', 'mul', 'sub']), red, V(x))
+        elif k < 0.8:
+            e = Node('op2', r.choice(['add', 'sub']), V(x), red)
+        else:
+            e = Node('tuple', [red, V(x)])
+        if e.k == 'tuple':
+            p, q = self.fresh('p'), self.fresh('q')
+            out.append(Node('assign', Node('ptuple', [PV(p), PV(q)]), e))
+            scope[p] = scope[q] = 'R'
+            self.must_use += [p, q]
+        else:
+            s = self.fresh('s')
+            out.append(Node('assign', PV(s), e))
+            scope[s] = 'R'
+            self.must_use.append(s)
+        self.features.add('comp-shadow')
+        return out
+
+    def nested_phi_stmts(self, scope, frozen, depth):
+        """x = e0; y = e1; if c1: (if c2: x = e2 [else: ...]); y = f(x)  -- x is merged (and read) inside the outer
+        branch and never read after it: its first definition feeds a live inner phi and a dead outer one."""
+        r = self.r
+        x, y = self.fresh('x'), self.fresh('y')
+        pre = [Node('assign', PV(x), self.expr_R(scope, 1)), Node('assign', PV(y), self.expr_R(scope, 1))]
+        inner = dict(scope)
+        inner[x] = inner[y] = 'R'
+        k = r.random()
+        if k < 0.45:
+            mid = [Node('if1', self.expr_B(inner, 1), [Node('assign', PV(x), self.expr_R(inner, 1))])]
+        elif k < 0.7:
+            mid = [Node('if', self.expr_B(inner, 1), [Node('assign', PV(x), self.expr_R(inner, 1))],
+                        [Node('assign', PV(self.fresh('t')), self.expr_R(inner, 1))])]
+        elif k < 0.85:
+            i = self.fresh('i')
+            mid = [Node('assign', PV(i), lit(0)),
+                   Node('while', Node('cmp', ['<'], [V(i), lit(r.randint(0, 2))]),
+                        [Node('assign', PV(x), Node('op2', 'add', V(x), self.leaf_R(inner))),
+                         Node('assign', PV(i), Node('op2', 'add', V(i), lit(1)))])]
+        else:
+            e = self.fresh('e')
+            mid = [Node('for', PV(e), Node('range', [lit(r.randint(0, 2))]),
+                        [Node('assign', PV(x), Node('op2', 'add', V(x), V(e)))])]
+        use = Node('assign', PV(y), Node('op2', r.choice(['add', 'mul', 'sub']), V(x), self.leaf_R(inner)))
+        branch = mid + [use]
+        if depth > 1 and r.random() < 0.3:
+            branch = self.stmts(dict(inner), 0, 1) + branch
+        cond = self.expr_B(scope, 1)
+        kk = r.random()
+        if kk < 0.5:
+            outer = Node('if1', cond, branch)
+        elif kk < 0.75:
+            outer = Node('if', cond, branch, [Node('assign', PV(y), self.expr_R(scope, 1))])
+        else:
+            outer = Node('if', cond, [Node('assign', PV(y), self.expr_R(scope, 1))], branch)
+        scope[y] = 'R'
+        scope['#dead:' + x] = 'X'          # x stays defined but is deliberately not offered to later code
+        self.must_use.append(y)
+        self.features.add('nested-phi')
+        return pre + [outer]
+
     # ---- statements
     def stmts(self, scope, depth, n, in_loop=False):
         out = []
@@ -327,6 +424,10 @@ class SimpGen:
         Rs = self.vars_of(scope, lambda t: t == 'R')
         Ls = self.vars_of(scope, lambda t: isinstance(t, tuple))
         frozen = scope.get('#frozen', frozenset())
+        if r.random() < 0.07:
+            return self.shadow_comp_stmts(scope, frozen)
+        if depth > 0 and r.random() < 0.06:
+            return self.nested_phi_stmts(scope, frozen, depth)
         if c < 0.16 and Rs:                                    # copy
             y = r.choice(Rs)
             x = self.fresh('x')
@@ -568,20 +669,20 @@ def corpus():
                                    Node('if1', Node('cmp', ['>'], [V('c'), lit(0)]), [A('x', lit(1))]),
                                    Node('return', Node('ref', V('xs'), lit(0)))])]),
                 [[[N.fin(5), N.fin(6)], N.fin(1)]], {'enable_const_fold': False, 'enable_copy_prop': False},
-                'dce_unused_phi_operands'))
+                None))
     out.append(('dce_phi_operand_used',
                 Program([Func('main', ['a', 'b', 'c'], None,
                               [A('x', V('a')), A('t', add(V('x'), lit(1))),
                                Node('if1', Node('cmp', ['>'], [V('c'), lit(0)]), [A('x', V('b'))]),
                                Node('return', V('t'))])]),
                 [[N.fin(1), N.fin(2), N.fin(1)]], {'enable_const_fold': False, 'enable_copy_prop': False},
-                'dce_unused_phi_operands'))
+                None))
     # C07-C: a callee that mutates its argument through a local alias counts as pure
     g = Func('g', ['zs'], None, [A('ws', V('zs')), Node('iassign', 'ws', [lit(0)], lit(7)), Node('return', lit(0))])
     out.append(('purity_alias',
                 Program([g, Func('main', ['xs'], None,
                                  [A('t', Node('call', 'g', [V('xs')])), Node('return', Node('ref', V('xs'), lit(0)))])]),
-                [[[N.fin(5), N.fin(6)]]], {}, 'purity_alias_mutation'))
+                [[[N.fin(5), N.fin(6)]]], {}, None))
     # C07-D: a list constant is folded although the list is mutated through an alias
     out.append(('constfold_list_alias',
                 Program([Func('main', ['a'], None,
@@ -599,7 +700,7 @@ def corpus():
                                           [A('s', add(V('s'), lit(1))), A('j', Node('op2', 'sub', V('i'), V('i')))]),
                                      A('i', add(V('i'), lit(1)))]),
                                Node('return', V('s'))])]),
-                [[N.fin(3)]], {}, 'partial_eval_stale_loop_fact'))
+                [[N.fin(3)]], {}, None))
     # C07-H: an `if True:` ending in a return is spliced into its block; the statements after it are left behind
     out.append(('dce_unreachable_after_return',
                 Program([Func('main', ['a', 'xs'], None,
@@ -608,7 +709,7 @@ def corpus():
                                A('i', lit(0)),
                                Node('while', Node('cmp', ['<'], [V('i'), lit(0)]), [A('i', add(V('i'), lit(1)))]),
                                Node('return', V('x'))])]),
-                [[N.fin(1), [N.fin(5), N.fin(6)]]], {}, 'dce_unreachable_after_return'))
+                [[N.fin(1), [N.fin(5), N.fin(6)]]], {}, None))
     # regression: constants under a context known only at run time, nested in a static one, must not be folded
     FP64v = Node('ctxval', 'fp.FP64', CtxSpec('FP64'))
     div = lambda a, b: Node('op2', 'div', a, b)          # noqa: E731
@@ -651,11 +752,39 @@ def corpus():
                                           Node('tuple', [Node('tuple', [add(V('a'), V('e')), V('b')]), add(V('b'), lit(1))]))]),
                                Node('return', add(V('a'), V('b')))])]),
                 [[N.fin(1), [N.fin(10), N.fin(20)]]], {}, None))
+    # regression: a comprehension target is scoped to the comprehension (it may shadow a variable read again later)
+    out.append(('comp_target_shadows_local',
+                Program([Func('main', ['a', 'xs'], None,
+                              [A('x', Node('op2', 'mul', V('a'), lit(2))),
+                               A('s', add(Node('sum', Node('comp', [(PV('x'), V('xs'))], Node('op2', 'mul', V('x'), V('x')))), V('x'))),
+                               Node('return', V('s'))])]),
+                [[N.fin(3), [N.fin(1), N.fin(2)]], [N.fin(F(-1, 2)), [N.fin(4), N.fin(F(1, 4)), N.fin(3)]]], {}, None))
+    out.append(('comp_target_shadows_arg',
+                Program([Func('main', ['x', 'xs'], None,
+                              [A('x', Node('op2', 'mul', V('x'), lit(2))),
+                               A('s', add(Node('sum', Node('comp', [(PV('x'), V('xs'))], V('x'))), V('x'))),
+                               Node('return', V('s'))])]),
+                [[N.fin(3), [N.fin(1), N.fin(2)]], [N.fin(7), [N.fin(F(1, 2))]]], {}, None))
+    # regression: a definition that feeds a live inner phi and a dead outer phi
+    gt0 = lambda v: Node('cmp', ['>'], [V(v), lit(0)])      # noqa: E731
+    out.append(('phi_live_inner_dead_outer',
+                Program([Func('main', ['a', 'b'], None,
+                              [A('x', lit(0)), A('y', lit(10)),
+                               Node('if1', gt0('a'), [Node('if1', gt0('b'), [A('x', lit(1))]), A('y', add(V('x'), lit(5)))]),
+                               Node('return', V('y'))])]),
+                [[N.fin(1), N.fin(1)], [N.fin(1), N.fin(-1)], [N.fin(-1), N.fin(1)]], {}, None))
+    out.append(('phi_live_inner_dead_outer_over_arg',
+                Program([Func('main', ['x', 'a', 'b'], None,
+                              [A('x', lit(3)), A('y', lit(10)),
+                               Node('if', gt0('a'), [A('y', lit(20))],
+                                    [Node('if1', gt0('b'), [A('x', lit(1))]), A('y', Node('op2', 'mul', V('x'), lit(2)))]),
+                               Node('return', V('y'))])]),
+                [[N.fin(100), N.fin(-1), N.fin(-1)], [N.fin(100), N.fin(-1), N.fin(1)], [N.fin(100), N.fin(1), N.fin(1)]], {}, None))
     # C07-F: the reaching-definitions analysis forgets the loop target after a `for`
     out.append(('for_target_escapes',
                 Program([Func('main', ['y', 'xs'], None,
                               [A('i', V('y')), Node('for', PV('i'), V('xs'), [Node('pass')]), Node('return', V('i'))])]),
-                [[N.fin(1), [N.fin(10), N.fin(20)]]], {}, 'for_target_escapes_loop'))
+                [[N.fin(1), [N.fin(10), N.fin(20)]]], {}, None))
     return out
 
 
@@ -873,8 +1002,8 @@ def coq_codes(ck, cases, chunk, tag='steps'):
 
 
 KEY_OF_BIT = {
-    'PCopyProp': {16: 'copyprop_source_redefined', 32: 'for_target_escapes_loop'},
-    'PDce': {16: 'dce_unused_phi_operands', 32: 'purity_alias_mutation', 64: 'for_target_escapes_loop'},
+    'PCopyProp': {16: 'copyprop_source_redefined'},
+    'PDce': {},        # every DCE defect found so far is repaired in /repo: a DCE failure is a violation
 }
 
 
@@ -889,16 +1018,10 @@ def classify_step(pass_name, code, node_in, node_out, exc=None):
             return None
         if node_out is not None and list_fold_positions(node_in.body, node_out.body):
             return 'constfold_list_alias'
-        if node_out is not None and folded_loop_conditions(node_in.body, node_out.body):
-            return 'partial_eval_stale_loop_fact'
         return None
     if node_out is None:
-        # the pass raised: attribute by the exception
-        if pass_name == 'PDce' and exc and exc.startswith('FPySyntaxError') and 'unbound variable' in exc \
-                and code_after_return(node_in.body):
-            return 'dce_unreachable_after_return'
-        if not (pass_name == 'PDce' and exc and exc.startswith('KeyError')):
-            return None
+        # the pass raised: no known class
+        return None
     as_coded = bool(code & 1) or node_out is None
     if not as_coded or (code & 8):
         return None
